@@ -529,6 +529,27 @@ def c01(chk, thorough):
         chk.floor(r_, fl)
 
 
+def c02(chk, thorough):
+    from . import pcacheck
+    chk.explanation = (
+        'Decides the structural content of C02 with the free vector algebra of E18: (PCA.power-step) entered with a unit loading p and t = E p (the state every '
+        'pass re-establishes), one pass of the NIPALS loop leaves p = unit(E\'E p) and t = E p -- a pure power step on the cross-product matrix, homogeneous in '
+        'E, so the fixed points are exactly its eigenvectors and neither they nor the speed of convergence depend on the units of the data; (PCA.component) at '
+        'the exit p\'p = 1, t = E p, eval = t\'t = p\'E\'E p (the eigenvalue at a fixed point) and E is deflated by exactly t p\', so the next component iterates on '
+        'the cross-product matrix restricted to the orthogonal complement; (PCA.variance) explained variance = eigenvalue / trace * 100 with the trace taken '
+        'before any deflation. NOT decided: that the iteration reaches the dominant eigenvector and how accurately (eigen-gap, convergence constant), hence the '
+        'k-th largest ordering; the equivariances as numerical statements (every kernel involved is permutation-equivariant; the start column is an arg-max '
+        'with a first-index tie-break).')
+    chk.assumptions = ['real arithmetic; norms positive', 'the kernel table of E18 (cell forms decided under C11)']
+    prog = load_program(chk, ['pca.c', 'matrix.c', 'vector.c', 'algebra.c'])
+    pcacheck.power_step(chk, prog)
+    En = pcacheck.component(chk, prog)
+    if En:
+        pcacheck.variance(chk, prog, En)
+    for r_, fl in (('PCA.power-step', 1), ('PCA.component', 1), ('PCA.variance', 2)):
+        chk.floor(r_, fl)
+
+
 def c04(chk, thorough):
     from . import plscheck, accum
     chk.explanation = (
@@ -582,6 +603,10 @@ def c09(chk, thorough):
                        'generic-block interpretation: iterations of a loop over the blocks interact only through the row/column they store']
     prog = load_program(chk, ['cpca.c', 'pca.c', 'matrix.c', 'vector.c', 'tensor.c', 'preprocessing.c'])
     cpcacheck.run(chk, prog)
+    # the projection re-applies the stored centring / scaling by hand: it must test the scales the way the fit did (rules of C10)
+    guards.zero_divisor(chk, prog, {'preprocessing.c', 'cpca.c'})
+    guards.fit_apply_agreement(chk, prog)
+    guards.scaling_tests(chk, prog, {'preprocessing.c', 'cpca.c'})
     guards.kernel_tolerances(chk, prog, {'cpca.c': ['CPCA', 'CalcBlockLoadings']}, table={}, rule='SV.tolerance',
                              what='CPCA fit routines (no absolute tolerance on scores, loadings, weights)')
     for r_, fl in (('CPCA.block-loadings', 1), ('CPCA.iteration', 1), ('CPCA.component', 1), ('CPCA.scaling', 3), ('CPCA.score-predictor', 1)):
@@ -625,6 +650,7 @@ def c17(chk, thorough):
 
 CHECKS = {
     'C01': c01,
+    'C02': c02,
     'C04': c04,
     'C09': c09,
     'C07': c07,
